@@ -129,6 +129,9 @@ impl<F: Float> FFT<F> {
             }
             return;
         }
+        // the twiddle table must cover size n before it is read below (a fresh or smaller
+        // object used to read w with stride 0 and returned garbage)
+        self.update_n(n);
         let buf = &mut self.bufs[0];
         buf.clear();
         buf.resize(v.len(), Complex::ZERO);
